@@ -459,6 +459,16 @@ class ElectricFieldScale(Contract):
         sev = st.scal.get(ps.name + '._axis[1]._scale[ElectronVolt]')
         st.assume(args['revolutionpart'].t != 0)
         ex.oblig(st, 'volts_factor', vol.t * args['revolutionpart'].t == (d1.t * sev.t if d1 is not None and sev is not None else -1), 'postcondition', {'C10'})
+        # ---- form-factor renormalisation: the squared grid spacing of the position axis (the DFT of the sampled profile times the spacing
+        # approximates the continuous transform; squared because the spectrum is quadratic in the form factor) — the factor that makes
+        # "integrated CSR power = one half of sum(profile x unscaled wake potential)" (C07) come out
+        if '_formfactorrenorm' not in inits:
+            raise ExtractionError('ElectricField constructor: member initialiser _formfactorrenorm not found')
+        ffr = ex.ev(inits['_formfactorrenorm']['inner'][0], st)
+        d0 = st.scal.get(ps.name + '._axis[0]._delta')
+        from vf.models import real as _real
+        ex.oblig(st, 'formfactor_renormalisation', _real(ffr) == (d0.t * d0.t if d0 is not None else -1), 'postcondition', {'C07', 'C10'},
+                 '_formfactorrenorm = (grid spacing of the position axis)^2')
         # ---- radiated-power factors attached to /CSR/Spectrum (W/Hz) and /CSR/Intensity (W), and the frequency step in hertz
         for need in ('factor4WattPerHertz', 'factor4Watts', '_axis_freq'):
             if need not in inits:
